@@ -13,7 +13,11 @@ func compileClass(vm *r.VM, classID *r.IDName, classNode *syntax.ClassDeclareStm
 
 	// init prop list and its default value
 	for _, propPair := range classNode.PropertyList {
-		propID := propPair.PropertyID.GetLiteral()
+		propName, err := MatchIDName(propPair.PropertyID)
+		if err != nil {
+			return nil, err
+		}
+		propID := propName.GetLiteral()
 		element, err := evalExpression(vm, propPair.InitValue)
 		if err != nil {
 			return nil, err
@@ -24,13 +28,21 @@ func compileClass(vm *r.VM, classID *r.IDName, classNode *syntax.ClassDeclareStm
 
 	// add getters
 	for _, gNode := range classNode.GetterList {
-		getterTag := gNode.Name.GetLiteral()
+		getterName, err := MatchIDName(gNode.Name)
+		if err != nil {
+			return nil, err
+		}
+		getterTag := getterName.GetLiteral()
 		ref.DefineCompProperty(getterTag, compileFunction(vm, gNode))
 	}
 
 	// add methods
 	for _, mNode := range classNode.MethodList {
-		mTag := mNode.Name.GetLiteral()
+		mName, err := MatchIDName(mNode.Name)
+		if err != nil {
+			return nil, err
+		}
+		mTag := mName.GetLiteral()
 		ref.DefineMethod(mTag, compileFunction(vm, mNode))
 	}
 
